@@ -428,6 +428,7 @@ class DCM(np.ndarray):
         _assert_SO3(array, "Direction Cosine Matrix")
         # Create the ndarray instance of type DCM. This will call the standard
         # ndarray constructor, but return an object of type DCM.
+        array = np.ascontiguousarray(array, dtype=float)   # the buffer is read as C-ordered float64: any other layout or dtype would be reinterpreted
         obj = super(DCM, subtype).__new__(subtype, array.shape, float, array)
         obj.A = array
         return obj
